@@ -28,7 +28,7 @@ TRUSTED = ["sqlite's atomic commit (a fresh connection after the kill sees exact
 ASSUMPTIONS = ["one corruption at a time", "archives of 3 versions in 2 packages", "line granularity"]
 
 SPECS = [TaskSpec("e", "run_experiment", []), TaskSpec("f", "run_experiment", [], pkg="p")]
-ARCH_ROWS = [("//:e", 5), ("//:e", 9), ("//p:f", 6)]
+ARCH_ROWS = [("//:e", 5), ("//p:f", 6), ("//:e", 9)]        # (recorded in this order: the rows of one package are not adjacent)
 CORRUPTIONS = ("none", "index-removed", "directory-removed", "truncated", "version-already-recorded", "destination-exists", "member-header-damaged")
 PRIORS = ("empty", "other-versions")
 _ARCH = {}
@@ -218,9 +218,10 @@ def make(only):
 
 def scale_fn(g):
     """An archive of 10 versions (5 tasks x 2) - more than any worker or batch count."""
-    corruption = ("none", "ninth-directory-removed", "tenth-version-already-recorded")[g.choose("corruption", 3)]
+    corruption = ("none", "ninth-directory-removed", "tenth-version-already-recorded", "first-directory-removed", "killed-while-copying")[g.choose("corruption", 5)]
+    nver = 4 if corruption == "killed-while-copying" else 2           # 20 versions for the kill scenario
     specs = [TaskSpec("e%d" % i, "run_experiment", [], pkg=("", "p", "p/q")[i % 3]) for i in range(5)]
-    rows = [(s_.ident, 100 * (v + 1) + i) for v in range(2) for i, s_ in enumerate(specs)]
+    rows = [(s_.ident, 100 * (v + 1) + i) for v in range(nver) for i, s_ in enumerate(specs)]
     src = hrun.Project()
     proj = hrun.Project()
     work = tempfile.mkdtemp(prefix="verif-arch-", dir=hrun.SCRATCH_BASE)
@@ -232,11 +233,11 @@ def scale_fn(g):
         arch = os.path.join(work, "a.tar.gz")
         r = hrun.invoke_argv(["archive", "-o", arch], str(src.root), fakeos.Kernel(fakeos.Sched()))
         assert r.status == 0, (r.status, r.err)
-        if corruption == "ninth-directory-removed":
+        if corruption in ("ninth-directory-removed", "first-directory-removed"):
             x = os.path.join(work, "x")
             os.mkdir(x)
             subprocess.run(["tar", "xzf", arch, "-C", x], check=True)
-            ident, ts = rows[8]
+            ident, ts = rows[8] if corruption.startswith("ninth") else rows[0]
             pkg, nm = ident[2:].rsplit(":", 1)
             shutil.rmtree(os.path.join(x, pkg, "%s.task.%d" % (nm, ts)))
             os.unlink(arch)
@@ -246,11 +247,44 @@ def scale_fn(g):
             fill(proj.add_version(rows[9][0], rows[9][1], files={}), "prior same id")
         before = proj.index_rows()
         before_dig = hrun.tree_digest(proj.out, exclude=("version_index.sqlite",))
-        res = hrun.invoke_argv(["restore", arch], str(proj.root), fakeos.Kernel(fakeos.Sched()), timeout=120)
-        D = "archive of 10 versions, corruption=%s" % corruption
+        killed = False
+        if corruption == "killed-while-copying":
+            # the restoring process dies at one of a few points spread over the copy phase (every 40th executed line of cli/restore.py)
+            cfg = ("scale-kill",)
+            if cfg not in _L:
+                p0 = hrun.Project()
+                try:
+                    p0.write_tasks(specs)
+                    r0 = crash.run_in_child(lambda: hrun.invoke_argv(["restore", arch], str(p0.root), fakeos.Kernel(fakeos.Sched())).status, None, ("cli/restore.py",))
+                finally:
+                    p0.cleanup()
+                _L[cfg] = r0.get("lines", 0)
+            k = 40 * (1 + g.choose("kill_block", max(1, _L[cfg] // 40 - 1)))
+            outk = crash.run_in_child(lambda: hrun.invoke_argv(["restore", arch], str(proj.root), fakeos.Kernel(fakeos.Sched())).status, k, ("cli/restore.py",))
+            killed = bool(outk.get("killed"))
+
+            class R:
+                status = "killed" if killed else outk.get("result")
+                err = ""
+                exc = None
+            res = R()
+        else:
+            res = hrun.invoke_argv(["restore", arch], str(proj.root), fakeos.Kernel(fakeos.Sched()), timeout=120)
+        D = "archive of %d versions, corruption=%s" % (len(rows), corruption)
         if isinstance(res.status, str) and corruption == "none":
             g.require(False, "restore:crash:" + res.status[4:], "%s; %s" % (res.exc, D))
         after = proj.index_rows()
+        if corruption == "killed-while-copying":
+            # all or nothing, and whatever is recorded has its directory
+            allrows = sorted(set((r_[0], r_[1]) for r_ in before) | set(rows))
+            got_ = sorted((r_[0], r_[1]) for r_ in after)
+            g.require(after == before or got_ == allrows, "restore:partial-restore-recorded:killed@main",
+                      "killed restore left %d rows (before %d, archive %d); %s" % (len(after), len(before), len(rows), D))
+            for ident, ts, _, _ in after:
+                pkg, nm = ident[2:].rsplit(":", 1)
+                g.require((proj.out / pkg / ("%s.task.%d" % (nm, ts))).is_dir(), "restore:row-without-directory", "%s %d; %s" % (ident, ts, D))
+            g.goal("archive of ten versions")
+            return {"nontrivial": True, "sample": {"case": D, "rows_after": len(after)}}
         if corruption == "none":
             g.require(res.status == 0, "restore:failed", "status=%r err=%r; %s" % (res.status, res.err[-200:], D))
             g.require(sorted((r_[0], r_[1]) for r_ in after) == sorted(set((r_[0], r_[1]) for r_ in before) | set(rows)), "restore:success-but-wrong-rows",
@@ -301,8 +335,8 @@ def spaces(tier):
                 "prior state {empty, other versions} x stale staging bit x 7 corruption kinds x (no kill | kill at every executed "
                 "line of cli/restore.py and execution/version_index.py)", depth="marker", goals=goals, tiers=("quick",),
                 outside=["power loss / fsync", "two corruptions at once", "concurrent invocations"])]
-    sp.append(Space("scale-ten-versions", scale_fn, "an archive of 10 versions of 5 tasks in 3 packages; intact, ninth directory missing, tenth "
-                    "version already recorded", depth=2, goals=["archive of ten versions"]))
+    sp.append(Space("scale-ten-versions", scale_fn, "an archive of 10 versions of 5 tasks in 3 packages: intact, first / ninth directory missing, tenth version "
+                    "already recorded; an archive of 20 versions whose restore is killed at points spread over the copy phase", depth=2, goals=["archive of ten versions"]))
     if tier == "thorough":
         sp.append(Space("restore-faults-all-lines", make(None),
                         "same, kill at every executed line of conductor.*", depth="marker", goals=goals, tiers=("thorough",)))
